@@ -35,6 +35,7 @@ theorem call_fst (w : World) (c : LOp) : (call w c).1 = (stepR w c).1 := by
   case nbrInit fd => rcases netbufReadInit w fd with ⟨_ | _, _⟩ <;> rfl
   case nbwInit fd => rcases netbufWriteInit w fd with ⟨_ | _, _⟩ <;> rfl
   case http a l s => rcases httpRequest w a l s with ⟨_ | _, _⟩ <;> rfl
+  case https a l s hl => rcases httpsRequest w a l s hl with ⟨_ | _, _⟩ <;> rfl
 
 theorem call_world (w : World) (c : LOp) : (call w c).2.2 = (stepR w c).2 := by
   cases c <;> simp only [call, stepR]
@@ -45,6 +46,7 @@ theorem call_world (w : World) (c : LOp) : (call w c).2.2 = (stepR w c).2 := by
   case nbrInit fd => rcases netbufReadInit w fd with ⟨_ | _, _⟩ <;> rfl
   case nbwInit fd => rcases netbufWriteInit w fd with ⟨_ | _, _⟩ <;> rfl
   case http a l s => rcases httpRequest w a l s with ⟨_ | _, _⟩ <;> rfl
+  case https a l s hl => rcases httpsRequest w a l s hl with ⟨_ | _, _⟩ <;> rfl
 
 /-! ## the shape of `stepOp` on a call line -/
 
@@ -136,6 +138,10 @@ theorem callOf_isRelease (s : S) (op : UOp) (c : LOp) (h : callOf s op = some c)
     repeat' split at h
     all_goals first | (cases h; done) | (cases h; cases hr)
   | hqStart hh a pl =>
+    simp only [callOf] at h
+    repeat' split at h
+    all_goals first | (cases h; done) | (cases h; cases hr)
+  | hqsStart hh a pl hl =>
     simp only [callOf] at h
     repeat' split at h
     all_goals first | (cases h; done) | (cases h; cases hr)
@@ -276,5 +282,6 @@ theorem up_step_core (s : S) (op : UOp) (hI : Inv s.w) (hA : EvAcct s.w)
   | rel k h => exact hcallk rfl
   | ncStart h a t => exact hcallk rfl
   | hqStart h a pl => exact hcallk rfl
+  | hqsStart h a pl hl => exact hcallk rfl
 
 end Percival.Proofs.UpMonSound
